@@ -24,7 +24,7 @@ PROPERTY = 'C09'
 BUDGET = {'quick': 900, 'thorough': 5400}
 INF = float('inf')
 H1, H2, H3 = 2.0 ** -6, 2.0 ** -9, 2.0 ** -12
-QUICK_SPACES = ('rn2x2', 'pw_rn2_2_c', 'rn3', 'ud3', 'rn3w2', 'rn3wa', 'ud3b', 'pw_rn2_2', 'pw_ud2_2', 'pr_rn2_rn2_w')
+QUICK_SPACES = ('rn2x2', 'pw_rn2_2_c', 'pw_rn2_1_c', 'rn3', 'ud3', 'rn3w2', 'rn3wa', 'ud3b', 'pw_rn2_2', 'pw_ud2_2', 'pr_rn2_rn2_w')
 DER_BASES = ['L1Norm', 'L2NormSquared', 'L2Norm', 'KullbackLeibler', 'Huber',
              'KullbackLeiblerCrossEntropy', 'GroupL1Norm', 'KullbackLeiblerConvexConj',
              'KullbackLeiblerCrossEntropyConvexConj', 'ConstantFunctional', 'LpNorm']
